@@ -142,6 +142,8 @@ def run(ctx):
                 nbad += 1
                 if nbad == 1:
                     out["broken"].append({"kind": "correspondence", "what": f"generated body {name} at Float differs from the real quantity", "detail": {"config": str(cfg), "impl": got[:3].tolist(), "model": g if isinstance(g, str) else g[:3].tolist()}})
+    for key_, what_, script_ in realfuzz.cosmology_scenarios("MassFunction", "dndm"):
+        viol(key_, what_, {"script": script_})
     out["coverage"] = {
         "evaluations": len(reqs) + ncase * 8 + nmnl, "programs": len(exp), "disagreements_checked": len(exp), "traces_validated_against_impl": len(exp),
         "distinct_nontrivial": ncase,
